@@ -28,7 +28,25 @@ EXPLANATION = ('C15: the application answers with a body of a chosen kind (str, 
 ASSUMPTIONS = ['the TCP server is replaced by a sink recording write/close', 'http.client.HTTPResponse is the reference for well-formedness and framing']
 OUTSIDE = ['bodies larger than 4097 bytes', 'gzip/compression tools', 'Expect: 100-continue']
 
-KINDS = ['str', 'bytes', 'list', 'list-unicode', 'gen-str', 'gen-bytes', 'gen-empty-items', 'file', 'none']
+KINDS = ['str', 'bytes', 'list', 'list-unicode', 'gen-str', 'gen-bytes', 'gen-empty-items', 'file', 'file-short-reads', 'none']
+
+
+class ShortReads:
+    """a raw stream: read(n) may return fewer than n bytes before EOF"""
+
+    def __init__(self, data):
+        self.data = data
+        self.pos = 0
+        self.closed = False
+
+    def read(self, n=-1):
+        k = (2 if self.pos % 4 == 0 else 3) if len(self.data) <= 16 else 1500
+        chunk = self.data[self.pos:self.pos + min(k, n if n and n > 0 else k)]
+        self.pos += len(chunk)
+        return chunk
+
+    def close(self):
+        self.closed = True
 SIZES = [0, 1, 5, 4097]
 STATUSES = [200, 404, 204, 304, 500]
 
@@ -64,6 +82,9 @@ class App(BaseComponent):
             return res
         if kind == 'file':
             res.body = io.BytesIO(data)
+            return res
+        if kind == 'file-short-reads':
+            res.body = ShortReads(data)
             return res
         parts = [data[:1], data[1:3], data[3:]] if size > 3 else [data]
         if kind == 'gen-str':
